@@ -291,10 +291,10 @@ def r4(ctx, fs):
     env = LocalEnv(f)
     env.param_roles(['lits'])
     env.local_role('p', lambda n, i: n.get('t') == 'smt::lit')
-    loop = [n for n in f.nodes() if n.get('k') == 'ForStmt']
+    loop = [n for n in f.nodes() if n.get('k') == 'CXXForRangeStmt' and canon(n['slots']['range'], env, subst=False) == 'lits']     # any loop over all literals is normalised to this form
     if len(loop) != 1:
         raise AnalysisBroken('%s: filtering loop not found' % f.id)
-    it = loop[0]['slots']['init']['c'][0]['name']
+    it = loop[0]['slots']['var']['name']
     cur = it
     VAL = lambda: ('mcall', SC + 'value', 'this', cur)
     got = {}
@@ -428,7 +428,9 @@ def r5(ctx, fs):
                 cells[l[2] if l[0] == 'case' else 'default'] = canon(st, env, subst=False)
         keep = cells.get('Undefined')
         ok = cells.get('True') == ('ReturnStmt', 'true') and 'False' not in cells and 'default' not in cells and isinstance(keep, tuple) and keep[0] == '=' and \
-            isinstance(keep[1], tuple) and keep[1][0] == '[]' and keep[1][1] == 'smt::clause::lits' and isinstance(keep[2], tuple) and keep[2][0] == '[]' and keep[2][1] == 'smt::clause::lits'
+            isinstance(keep[1], tuple) and keep[1][0] == '[]' and keep[1][1] == 'smt::clause::lits' and \
+            ((isinstance(keep[2], tuple) and keep[2][0] == '[]' and keep[2][1] == 'smt::clause::lits') or
+             keep[2] in [n['slots']['var'].get('name') for n in f.nodes() if n.get('k') == 'CXXForRangeStmt' and canon(n['slots']['range'], env, subst=False) == 'smt::clause::lits'])
     rets = [canon(n['c'][0], env) for n in f.nodes() if n.get('k') == 'ReturnStmt']
     ctx.instance(rid, [f.id, 'simplify'], {'table_ok': ok, 'returns': [show(r) for r in rets]})
     if not ok or sorted(map(repr, rets)) != sorted(map(repr, ['true', 'false'])):
